@@ -1162,7 +1162,6 @@ def run_driver_crc(R, driver, tier, rng, only=None):
         cell.rf_cmd_k = None
         which = "a" if kind == "t2t" else "b"
         mk = refcrc.append_crc_a if which == "a" else refcrc.append_crc_b
-        chk = refcrc.check_crc_a if which == "a" else refcrc.check_crc_b
 
         def trial(raw, cls, cell=cell, kind=kind, which=which):
             crc_trial(R, cell, driver, kind, which, raw, cls)
